@@ -3835,12 +3835,16 @@ XPath::findAttributes(
 
             if (nAttrs != 0)
             {
+                // The nodes to test are attributes, even when a step of a match
+                // pattern is evaluated (to find the position of an attribute).
                 const NodeTester    theTester(
                                 *this,
                                 executionContext,
                                 opPos,
                                 argLen,
-                                stepType);
+                                stepType == XPathExpression::eMATCH_ATTRIBUTE ?
+                                    XPathExpression::eFROM_ATTRIBUTES :
+                                    stepType);
 
                 for (XalanSize_t j = 0; j < nAttrs; j++)
                 {
